@@ -250,7 +250,9 @@ func (st *stream) recordBytesRead(n int) error {
 	}
 	st.lim -= int64(n)
 	if st.lim < 0 {
-		st.stream = nil // panic if we try to read again
+		// Leave the stream usable for writing and closing.
+		// Further reads in this frame fail again.
+		st.lim = 0
 		return &connectionError{
 			code:    errH3FrameError,
 			message: "invalid HTTP/3 frame",
